@@ -27,6 +27,7 @@ real code only.
 import TelProofs.NoInternal
 import TelProofs.TermConvProofs
 import TelProofs.Props.C08
+import TelProofs.TranslateRecProofs
 
 namespace TelProofs.C15
 open TelSpec TelModel TelModel.Generated TelProofs
@@ -92,5 +93,27 @@ example : gringoOK bodyTable (.fn ";>" [.sym "a"]) = false := by decide
 example : gringoOK delTable (.fn ".>?" [.fn ";;" [.fn "?" [.sym "a"], .fn "*" [.fn "&" [.sym "true"]]], .sym "b"]) = true := by decide
 example : elemsOK true [⟨[], 0⟩, ⟨["&", ">"], 1⟩, ⟨["|"], 2⟩] := by simp [elemsOK]
 example : stackParse headTablePy [⟨["<"], 0⟩] = .error (.runtime "invalid operator in temporal formula") := by rfl
+
+/-! ### the recursion of the step-wise translation (`BodyFormula.translate`), model TelModel/TranslateRec.lean -/
+
+/-- `translate` returns for every graph of (formula, step) pairs in which the pairs that wait for their operands (negation,
+    previous / next, Boolean and temporal connectives) point to pairs of smaller rank — cycles through box / diamond pairs
+    (the unfolding of an iteration over a path that consumes no state) allowed: no unbounded recursion.  (That the recursion
+    is well-founded is what Lean checked to accept the definition of `tr`.)  The pair has a literal afterwards, none is lost. -/
+theorem translate_returns {n : Nat} (G : TelModel.TR.Graph n) (hG : G.ok) (fixed : Bool) (k : Fin n) (s : TelModel.TR.St n) :
+    (TelModel.TR.tr G hG fixed k s).1.set k = true ∧ s.le (TelModel.TR.tr G hG fixed k s).1 :=
+  TRP.translate_returns G hG fixed k s
+
+/-- with the second look of the Boolean connectives (the repair of D17) the assertion in `StepData.add_literal` never fails -/
+theorem add_literal_assertion_holds {n : Nat} (G : TelModel.TR.Graph n) (hG : G.ok) (hr : G.rechecks) (k : Fin n)
+    (s : TelModel.TR.St n) (h : s.err = false) : (TelModel.TR.tr G hG true k s).1.err = false :=
+  TRP.fixed_never_asserts G hG hr k s h
+
+/-- … and without it the assertion fails on every cycle of the shape of D17 (a Boolean pair whose first operand is a box /
+    diamond pair that unfolds to the Boolean pair): the repair is necessary, not only sufficient -/
+theorem add_literal_assertion_fails_without_second_look {n : Nat} (G : TelModel.TR.Graph n) (hG : G.ok) (k a b : Fin n)
+    (r : Bool) (s : TelModel.TR.St n) (hk : G.kind k = .op r a b) (ha : G.kind a = .early k)
+    (hsk : s.set k = false) (hsa : s.set a = false) : (TelModel.TR.tr G hG false k s).1.err = true :=
+  TRP.unfixed_asserts G hG k a b r s hk ha hsk hsa
 
 end TelProofs.C15
